@@ -13,6 +13,15 @@
 (*                refused with little work (the walkers stop at the first   *)
 (*                violation): within PolyBound, outside DevNoMemo's trigger *)
 (*                (cfg MC_LimitsWorkRefused, n up to 40)                    *)
+(*   CyclePoly    the search of NoFragmentCycles calls detect_from at most  *)
+(*                Size times on every family, the Fibonacci DAGs included   *)
+(*                (spread from the operation or unreferenced), n up to 40;  *)
+(*   FibIdealPoly the memoised ideal of the five walkers stays below        *)
+(*                PolyBound on the Fibonacci DAGs as well (n <= 24)         *)
+(*   NoGuardPoly  the same search without its `visited` guard -- expected   *)
+(*                to FAIL on the Fibonacci DAGs (cfg MC_LimitsWorkCycle-    *)
+(*                NoGuard): the guard is what the bound rests on, and no    *)
+(*                operation needs to spread the fragments                   *)
 (* Mode G (Gen cfg written by the driver): EmitDocs prints the documents.  *)
 (***************************************************************************)
 EXTENDS Limits, Json, Integers
@@ -54,9 +63,23 @@ FastIsCodedAt ==
 \* with no limit in the way the limit-aware work is the unlimited work
 AtIsPlain == n <= 14 => \A f \in Families : Visits_asCodedFastAt(FC(f), CfgOf(64, 1000)) = Visits_asCodedFast(FC(f))
 
+\* the rules' own search: NoFragmentCycles
+CycleFamilies == Families \cup FibFamilies \cup {"fanoutops", "dirfirst", "dirlast"}
+CyclePoly    == \A f \in CycleFamilies : Visits_cycles(FC(f)) <= Size(FC(f))
+FibIdealPoly == n <= 24 => \A f \in FibFamilies : WithinBound(Visits_ideal(FC(f)), PolyBound(FC(f)))
+NoGuardPoly  == \A f \in FibFamilies :
+                  \/ Visits_cyclesNoGuard(FC(f)) <= PolyBound(FC(f))
+                  \/ (PrintT(<<"COUNTEREXAMPLE", f, n, Size(FC(f)), PolyBound(FC(f)), Visits_cyclesNoGuard(FC(f))>>) /\ FALSE)
+\* the table of the unguarded search counts paths: Fib(n) on the Fibonacci DAG (1, 2, 3, 5, 8, ...: calls below one start at f_1)
+RECURSIVE FibCalls(_)
+FibCalls(k) == IF k <= 1 THEN 1 ELSE IF k = 2 THEN 2 ELSE 1 + FibCalls(k - 1) + FibCalls(k - 2)
+NoGuardIsPaths == n <= 16 => Visits_cyclesNoGuard(FC("fibfree")) = FibCalls(n)
+
 \* mode G: the documents of the families, for the harness (the fan-out chain only while its work stays below 2^20)
 EmitDocs == /\ \A f \in Families : (f = "fanout" => n <= MaxFan) => PrintT(<<"REPLAY", f, n, ToJson(Family(f, n))>>)
             \* requests above a recursion limit (the driver pairs them with the limits they exceed) and the directive-limit pair
             /\ \A f \in RefusedFamilies : n >= 9 => PrintT(<<"REPLAY", f, n, ToJson(Family(f, n))>>)
             /\ \A f \in {"dirfirst", "dirlast"} : n <= 15 => PrintT(<<"REPLAY", f, n, ToJson(Family(f, n))>>)
+            \* Fibonacci DAGs: unreferenced for every n; spread from the operation while the as-coded work stays below 2^20
+            /\ \A f \in FibFamilies : (f = "fibdag" => n <= MaxFan + 8) => PrintT(<<"REPLAY", f, n, ToJson(Family(f, n))>>)
 =============================================================================
